@@ -683,6 +683,14 @@ def run_impl(scn):
     trace.append('ok ' + enc_ranges(aslist))
     lines.append('interval str')
     trace.append('s' + asstr.encode().hex())
+    # range_endpoints(): a set of date/time objects (what TimeDate / TimeSpan register with cron)
+    lines.append('interval endpoints')
+    try:
+        eps = sorted(ti.export_dt(x) for x in iv.range_endpoints())
+        trace.append(','.join('.'.join(map(str, e)) for e in eps) or '-')
+    except Exception as err:    # noqa: BLE001
+        eps = 'err ' + err_name(err)
+        trace.append(eps)
     members = []
     for p in scn.get('probes', []):
         lines.append('interval in ' + '.'.join(map(str, p)))
@@ -709,7 +717,8 @@ def run_impl(scn):
             trace.append('ok ' + enc_ranges(again.as_list()))
             back[name] = again.as_list()
             back[name + '_str'] = again.as_string()
-    res.update(accepted=True, aslist=aslist, asstr=asstr, members=members, back=back, nontrivial=bool(aslist))
+    res.update(accepted=True, aslist=aslist, asstr=asstr, members=members, back=back, nontrivial=bool(aslist),
+               endpoints=eps)
     tags.append(f'ranges={len(aslist)}')
     return res
 
@@ -800,6 +809,8 @@ def oracle(scn, res):
     if aslist != sorted(aslist) or any(len(r) != 2 or any(len(e) != n or any(type(v) is not int for v in e) for e in r)
                                        for r in aslist):
         out.append({'clause': 'normal_form_sorted_full', 'what': f'{scn["spec"]!r} -> {aslist!r}'})
+        if any(len(r) != 2 or any(len(e) != n for e in r) for r in aslist):
+            return out          # not even the shape of a normal form: the other clauses cannot be evaluated
     if scn.get('ref') is not None and aslist != scn['ref']:
         out.append({'clause': 'notations_agree',
                     'what': f'{kind} {scn["spec"]!r} (families {scn.get("fams")}) -> {aslist!r}, expected {scn["ref"]!r}'})
@@ -810,6 +821,10 @@ def oracle(scn, res):
         out.append({'clause': 'asString_roundtrip', 'what': f'{res["asstr"]!r} fed back gives {back.get("string")!r}'})
     elif back.get('string_str') != res['asstr'] or back.get('list_str') != res['asstr']:
         out.append({'clause': 'asString_roundtrip', 'what': f'rendering not stable: {res["asstr"]!r}'})
+    want_eps = sorted({tuple(e) for r in aslist for e in r})
+    got_eps = res.get('endpoints')
+    if isinstance(got_eps, str) or [tuple(e) for e in got_eps] != want_eps:
+        out.append({'clause': 'range_endpoints', 'what': f'{aslist!r}: range_endpoints() = {res.get("endpoints")!r}'})
     for p, got in zip(scn.get('probes', []), res['members']):
         exp = _member(kind, aslist, p)
         if got != exp:
